@@ -403,8 +403,8 @@ func (t *tOps) createFrom(src iterator.Iterator) (f *tFile, n int, err error) {
 }
 
 // Opens table. It returns a cache handle, which should
-// be released after use.
-func (t *tOps) open(f *tFile) (ch *cache.Handle, err error) {
+// be released after use, and the table reader the handle holds.
+func (t *tOps) open(f *tFile) (ch *cache.Handle, reader *table.Reader, err error) {
 	ch = t.fileCache.Get(0, uint64(f.fd.Num), func() (size int, value cache.Value) {
 		var r storage.Reader
 		r, err = t.s.stor.Open(f.fd)
@@ -427,50 +427,60 @@ func (t *tOps) open(f *tFile) (ch *cache.Handle, err error) {
 
 	})
 	verifTableOpened(t.s)
-	if ch == nil && err == nil {
-		err = ErrClosed
+	if ch == nil {
+		if err == nil {
+			err = ErrClosed
+		}
+		return nil, nil, err
 	}
-	return
+	// The table cache is force-closed by tOps.close: a caller that races
+	// with DB.Close may hold a handle whose value has already been finalised.
+	reader, _ = ch.Value().(*table.Reader)
+	if reader == nil {
+		ch.Release()
+		return nil, nil, ErrClosed
+	}
+	return ch, reader, nil
 }
 
 // Finds key/value pair whose key is greater than or equal to the
 // given key.
 func (t *tOps) find(f *tFile, key []byte, ro *opt.ReadOptions) (rkey, rvalue []byte, err error) {
-	ch, err := t.open(f)
+	ch, tr, err := t.open(f)
 	if err != nil {
 		return nil, nil, err
 	}
 	defer ch.Release()
-	return ch.Value().(*table.Reader).Find(key, true, ro)
+	return tr.Find(key, true, ro)
 }
 
 // Finds key that is greater than or equal to the given key.
 func (t *tOps) findKey(f *tFile, key []byte, ro *opt.ReadOptions) (rkey []byte, err error) {
-	ch, err := t.open(f)
+	ch, tr, err := t.open(f)
 	if err != nil {
 		return nil, err
 	}
 	defer ch.Release()
-	return ch.Value().(*table.Reader).FindKey(key, true, ro)
+	return tr.FindKey(key, true, ro)
 }
 
 // Returns approximate offset of the given key.
 func (t *tOps) offsetOf(f *tFile, key []byte) (offset int64, err error) {
-	ch, err := t.open(f)
+	ch, tr, err := t.open(f)
 	if err != nil {
 		return
 	}
 	defer ch.Release()
-	return ch.Value().(*table.Reader).OffsetOf(key)
+	return tr.OffsetOf(key)
 }
 
 // Creates an iterator from the given table.
 func (t *tOps) newIterator(f *tFile, slice *util.Range, ro *opt.ReadOptions) iterator.Iterator {
-	ch, err := t.open(f)
+	ch, tr, err := t.open(f)
 	if err != nil {
 		return iterator.NewEmptyIterator(err)
 	}
-	iter := ch.Value().(*table.Reader).NewIterator(slice, ro)
+	iter := tr.NewIterator(slice, ro)
 	iter.SetReleaser(ch)
 	return iter
 }
